@@ -1,6 +1,6 @@
 """C01 / C02 over every native numerical domain at the level of the forward analyzer (oracle only, no model).
 
-harness/fwddoms{1,2,3,4}.cpp run intra_fwd_analyzer<cfg_ref, Dom> (and, with check=1, intra_checker +
+harness/fwddoms{1,2,3,4,5}.cpp run intra_fwd_analyzer<cfg_ref, Dom> (and, with check=1, intra_checker +
 assert_property_checker) for --mode=<dom> on the textual CFG programs of gen/cfgprog.py, printing the same
 tables as harness/fwditv.cpp; the concrete interpreter of gen/cfgprog.py judges every answer:
   C01 (checks/C01_doms.py)  cfgprog.oracle           every state of a concrete execution is inside the reported invariant
@@ -39,10 +39,16 @@ DOMAINS = [
     dict(name="prod-ic", tu="fwddoms3", what="reduced_numerical_domain_product2<interval_domain, congruence_domain>"),
     dict(name="signconst", tu="fwddoms3", what="sign_constant_domain"),
     dict(name="pow-itv", tu="fwddoms3", what="powerset_domain<interval_domain>"),
-    dict(name="bool-itv", tu="fwddoms4", what="flat_boolean_numerical_domain<interval_domain>"),
-    dict(name="bool-zones", tu="fwddoms4", what="flat_boolean_numerical_domain<split_dbm_domain>"),
+    dict(name="bool-itv", tu="fwddoms4", what="flat_boolean_numerical_domain<interval_domain>", bools=True),
+    dict(name="bool-zones", tu="fwddoms4", what="flat_boolean_numerical_domain<split_dbm_domain>", bools=True),
     dict(name="pack", tu="fwddoms4", what="numerical_packing_domain<split_dbm_domain>"),
     dict(name="tvpi", tu="fwddoms4", what="fixed_tvpi_domain<split_dbm_domain>, coefficients {2,3}"),
+    dict(name="sign", tu="fwddoms5", what="sign_domain"),
+    dict(name="const", tu="fwddoms5", what="constant_domain"),
+    dict(name="uf", tu="fwddoms5", what="uf_domain (at() knows nothing: only bottom / reachability is observable)"),
+    dict(name="num", tu="fwddoms5", what="reduced_numerical_domain_product2<term_domain<dis_interval_domain>, split_dbm_domain>"),
+    dict(name="pow-zones", tu="fwddoms5", what="powerset_domain<split_dbm_domain>"),
+    dict(name="gen-zones", tu="fwddoms5", what="abstract_domain<z_var> around split_dbm_domain"),
 ]
 EXCLUDED = {
     "interval_domain": "covered by the model-backed streams fwd-intervals / fwd-verdicts of C01 / C02",
@@ -67,13 +73,41 @@ def zid(s):
     return zlib.crc32(s.encode()) % 1000
 
 
-def programs(seed, tier, prop, dom, n=None):
+# Hand-made programs run on every domain after the corpus of cfgprog.  (C01, C02) variants.
+EXTRA_CORPUS = {
+    "C01": [
+        # fixed_tvpi_domain, integer ghost variables x/2, y/2 (known finding): x, y, z unknown to the analysis, -1 on one path each;
+        # x < 0, y < 0, 2z - x - y <= 0  gave z <= -2 although (-1,-1,-1) passes
+        "cfg 11 3 10 | B 0  | B 1 assign 0 E 0 -1 | B 2 havoc 0 | B 3  | B 4 assign 1 E 0 -1 | B 5 havoc 1 | B 6  | B 7 assign 2 E 0 -1 | B 8 havoc 2 | B 9  | "
+        "B 10 assume C lt E 1 1 0 0 ; assume C lt E 1 1 1 0 ; assume C le E 3 -1 0 -1 1 2 2 0 | E 0 1 0 2 1 3 2 3 3 4 3 5 4 6 5 6 6 7 6 8 7 9 8 9 9 10",
+        # 1000x + 1000 = 0, x < 0 gave bottom although x = -1
+        "cfg 5 1 4 | B 0  | B 1 assign 0 E 0 -1 | B 2 havoc 0 | B 3 assume C eq E 1 1000 0 1000 ; assume C lt E 1 1 0 0 | B 4  | E 0 1 0 2 1 3 2 3 3 4",
+        # numerical_packing: a pack left at bottom by a division by zero (fwddoms-1)
+        "cfg 2 2 1 | B 0 arith sdiv 0 1 k 0 ; arith add 0 1 v 1 | B 1  | E 0 1",
+        "cfg 4 2 3 | B 0  | B 1 arith add 0 1 k 7 | B 2 assume C le E 1 1 0 -5 ; arith srem 1 1 k 0 | B 3  | E 0 1 0 2 1 3 2 3",
+        # numerical_packing: inclusion test on values with different packs, loop entered in the middle (fwddoms-2: no termination)
+        "cfg 3 2 1 entry=1 | B 0  | B 1 assume C le E 1 -1 1 10 | B 2 assign 1 E 2 3 0 -2 1 10 | E 0 2 2 1 1 0",
+    ],
+    "C02": [
+        "cfg 11 3 10 check=1 nasserts=1 | B 0  | B 1 assign 0 E 0 -1 | B 2 havoc 0 | B 3  | B 4 assign 1 E 0 -1 | B 5 havoc 1 | B 6  | B 7 assign 2 E 0 -1 | B 8 havoc 2 | B 9  | "
+        "B 10 assume C lt E 1 1 0 0 ; assume C lt E 1 1 1 0 ; assume C le E 3 -1 0 -1 1 2 2 0 ; assert C le E 1 1 2 2 1 | E 0 1 0 2 1 3 2 3 3 4 3 5 4 6 5 6 6 7 6 8 7 9 8 9 9 10",
+        "cfg 5 1 4 check=1 nasserts=1 | B 0  | B 1 assign 0 E 0 -1 | B 2 havoc 0 | B 3 assume C eq E 1 1000 0 1000 ; assume C lt E 1 1 0 0 | B 4 assert C le E 1 1 0 5 1 | E 0 1 0 2 1 3 2 3 3 4",
+        "cfg 2 2 1 check=1 nasserts=1 | B 0 arith sdiv 0 1 k 0 ; arith add 0 1 v 1 | B 1 assert C le E 1 1 0 0 1 | E 0 1",
+        "cfg 4 2 3 check=1 nasserts=1 | B 0  | B 1 arith add 0 1 k 7 | B 2 assume C le E 1 1 0 -5 ; arith srem 1 1 k 0 | B 3 assert C le E 2 1 0 -1 1 -7 1 | E 0 1 0 2 1 3 2 3",
+        "cfg 3 2 1 entry=1 check=1 nasserts=1 | B 0 assert C le E 1 -1 1 10 1 | B 1 assume C le E 1 -1 1 10 | B 2 assign 1 E 2 3 0 -2 1 10 | E 0 2 2 1 1 0",
+    ],
+}
+HAS_BOOL = re.compile(r"(?:^|[ ;|])(?:%s) " % "|".join(cfgprog.BOOL_OPS))
+
+
+def programs(seed, tier, prop, dom, n=None, bools=False):
     """corpus + n generated programs: half plain (widening delay / descending iterations / initial constraints /
     alternative entry blocks chosen by the generator), half with thresholds, liveness pruning and an assumption map"""
     n = n or sizes(tier)
     base = {"asserts": True, "fixed_opts": [("check", 1)]} if prop == "C02" else {}
     s0 = seed + 7 * zid(dom) + (0 if prop == "C01" else 500000)
     lines = cfgprog.gen(s0, tier, n=n - n // 2, opts=dict(base))
+    lines[len(cfgprog.CORPUS):len(cfgprog.CORPUS)] = EXTRA_CORPUS[prop]
     rng = random.Random(s0 + 1)
     q = max(1, (n // 2) // 4)
     k = 0
@@ -84,7 +118,80 @@ def programs(seed, tier, prop, dom, n=None):
         k += 1
         for l in cfgprog.gen(s0 + 10 + k, tier, n=m, opts=o):
             lines.append(cfgprog.add_assumptions(l, rng, 0.6))
+    # boxes built by joins, then constraints over two / three variables (relational transfer functions)
+    lines += relational_programs(s0 + 50, max(4, n // 4), prop)
+    if tier != "quick":
+        # constants around 2^31 and 2^62
+        lines += relational_programs(s0 + 60, max(4, n // 8), prop, big=True)
+    # boolean statements: many for the domains that interpret them (flat_boolean_numerical_domain), a few for the
+    # others (no-ops there, except b := constraint ... x := zext(b), that must not leave stale facts)
+    m = n // 2 if bools else max(3, n // 12)
+    o = dict(base); o["corpus"] = False
+    bl = cfgprog.gen(s0 + 70, tier, n=m - m // 2, opts=o)
+    o["fixed_opts"] = list(base.get("fixed_opts", [])) + [("thr", 5), ("live", 1)]
+    bl += cfgprog.gen(s0 + 71, tier, n=m // 2, opts=o)
+    lines += [cfgprog.add_bool_stmts(cfgprog.add_assumptions(l, rng, 0.2), rng, asserts=(prop == "C02")) for l in bl]
     return lines
+
+
+BIG = [2 ** 62, -(2 ** 62), 2 ** 62 - 1, 2 ** 61, -(2 ** 61) - 3, 2 ** 31, -(2 ** 31), 2 ** 32 + 1]
+
+
+def relational_programs(seed, n, prop, big=False):
+    """every variable gets one of two constants (or a constant / an unknown value) in a diamond (so that every combination
+    is the store of some execution and the domain only knows a box, or the relations it can express, after the joins), then one to three assumptions over
+    two or three variables with coefficients in {1,2,3,5,7,1000} (where relational domains decompose / tighten
+    constraints), then assignments that copy the result around; optionally inside a loop that is left through a counter.
+    big=True: constants around 2^31 / 2^62 (graph domains on int64 weights)"""
+    rng = random.Random(seed)
+    out = []
+    consts = [-1, -1, 1, 0, 2, 3, -3, 4, 5, -5, 7, 12, 15, 17, 18, -100]
+    for _ in range(n):
+        nv = rng.randint(2, 4)
+        blocks = [[]]; edges = []
+        cur = 0
+        loop = rng.random() < 0.3
+        if loop:
+            cnt = nv; nv += 1
+            blocks[0].append("assign %d E 0 0" % cnt)
+            h = len(blocks); blocks.append([]); edges.append((0, h)); cur = h
+            body = len(blocks); blocks.append(["assume C le E 1 1 %d %d" % (cnt, -2)])          # cnt <= 2
+            ex = len(blocks); blocks.append(["assume C le E 1 -1 %d %d" % (cnt, 3)])            # cnt >= 3
+            edges.extend([(h, body), (h, ex)]); cur = body
+        for v in range(nv - (1 if loop else 0)):
+            pool = BIG if (big and rng.random() < 0.5) else consts
+            c1, c2 = rng.choice(pool), rng.choice(pool)
+            t, f, j = len(blocks), len(blocks) + 1, len(blocks) + 2
+            # one branch may leave the variable unknown: the domain then starts from top for it, the executions
+            # through the other branch still concentrate on the small constant
+            blocks.extend([["assign %d E 0 %d" % (v, c1)], ["havoc %d" % v] if rng.random() < 0.35 else ["assign %d E 0 %d" % (v, c2)], []])
+            edges.extend([(cur, t), (cur, f), (t, j), (f, j)]); cur = j
+        nvv = nv - (1 if loop else 0)
+        g = len(blocks); blocks.append([]); edges.append((cur, g)); cur = g
+        for _k in range(rng.randint(1, 3)):
+            m = min(nvv, rng.choice([1, 2, 2, 3]))
+            vs = sorted(rng.sample(range(nvv), m))
+            coefs = [rng.choice([1, -1, 1, -1, 2, -2, 3, -3, 5, -5, 7, 1000] + ([2 ** 31, -(2 ** 62)] if big else [])) for _v in vs]
+            k = rng.choice(BIG if (big and rng.random() < 0.3) else [0, 0, 1, -1, 2, 3, -3, 5, 10, -7, 1000])
+            kind = rng.choice(["le", "le", "le", "eq", "lt", "ne"])
+            blocks[g].append("assume C %s E %d %s %d" % (kind, m, " ".join("%d %d" % cv for cv in zip(coefs, vs)), k))
+        for _k in range(rng.randint(0, 2)):
+            blocks[g].append(cfgprog.rand_stmt(rng, nvv, allow=("assign", "arith", "select")))
+        na = 0
+        if prop == "C02":
+            for _k in range(rng.randint(1, 2)):
+                na += 1
+                c = cfgprog.gen_cst(rng, nvv, kinds=("le", "le", "eq", "ne", "lt"), small=True, maxterms=2)
+                blocks[g].append("assert %s %d" % (cfgprog.fmt_cst(c), na))
+        if loop:
+            blocks[g].append("arith add %d %d k 1" % (cnt, cnt)); edges.append((g, h)); last = ex
+        else:
+            last = g
+        po = [("delay", rng.choice([0, 1, 2])), ("desc", rng.choice([0, 1, 2])), ("thr", rng.choice([0, 0, 5])), ("live", rng.choice([0, 1]))]
+        if prop == "C02":
+            po += [("check", 1), ("nasserts", na)]
+        out.append(cfgprog.fmt_program("cfg %d %d %d" % (len(blocks), nv, last), blocks, edges, po))
+    return out
 
 
 # ---------------------------------------------------------------- running the harness
@@ -97,7 +204,7 @@ def norm_msg(out_lines):
     return t.strip()[:300]
 
 
-def run_cases(exe, mode, lines, path, timeout=900, per_run=120):
+def run_cases(exe, mode, lines, path, timeout=900, per_run=40):
     """CRAB_ERROR / crash end the process: the case gets 'ABORT <message>' and the run restarts after it; a run that
     gives no further answer within `per_run` seconds marks its case 'ABORT timeout'"""
     with open(path, "w") as f:
@@ -134,6 +241,8 @@ def match_known(known, stream, line, w):
     for k in known:
         if not fnmatch.fnmatchcase(stream, k.get("stream", "")):
             continue
+        if k.get("domains") and stream[len("fwd-"):-len("-oracle")] not in k["domains"]:
+            continue
         if not re.search(k.get("line_regex", ""), line):
             continue
         if k.get("witness_regex") and not re.search(k["witness_regex"], w):
@@ -145,6 +254,8 @@ def match_known(known, stream, line, w):
 def judge(prop, line, ans):
     if is_abort(ans):
         return "%s: the analysis aborted: %s" % (line, ans)
+    if HAS_BOOL.search(line):
+        return cfgprog.oracle_ext(line, ans) if prop == "C01" else cfgprog.oracle_verdicts_ext(line, ans)
     if prop == "C01":
         return cfgprog.oracle(line, ans)
     return cfgprog.oracle_verdicts(line, ans)
@@ -171,14 +282,14 @@ def run_domain(prop, tier, seed, dom, exe, known, n=None, lines=None):
     res = DomResult()
     st = res.st
     outd = os.path.join(vlib.VERIF, "out", prop)
-    lines = lines if lines is not None else programs(seed, tier, prop, name, n)
+    lines = lines if lines is not None else programs(seed, tier, prop, name, n, bools=dom.get("bools", False))
     t0 = time.time()
     answers = run_cases(exe, name, lines, os.path.join(outd, stream + ".cases"))
     st["harness_s"] = round(time.time() - t0, 1)
     st["cases"] = len(lines)
     nrep = {"oracle": 0, "abort": 0}
     nknown = {}
-    opt_count = {"thresholds": 0, "liveness": 0, "alt_entry": 0, "assumptions": 0}
+    opt_count = {"thresholds": 0, "liveness": 0, "alt_entry": 0, "assumptions": 0, "boolean_statements": 0}
     letters = {}
     for i, (l, a) in enumerate(zip(lines, answers)):
         h = l.split(" | ")[0]
@@ -186,6 +297,7 @@ def run_domain(prop, tier, seed, dom, exe, known, n=None, lines=None):
         opt_count["liveness"] += "live=1" in h
         opt_count["alt_entry"] += bool(re.search(r"\bentry=[1-9]", h))
         opt_count["assumptions"] += " | A " in l
+        opt_count["boolean_statements"] += bool(HAS_BOOL.search(l))
         if prop == "C02" and not is_abort(a):
             for v in (cfgprog.parse_verdicts(a) or {}).values():
                 for ch in v:
@@ -206,7 +318,7 @@ def run_domain(prop, tier, seed, dom, exe, known, n=None, lines=None):
             st["known_finding_hits"] += 1
             nknown[kn["what"]] = nknown.get(kn["what"], 0) + 1
             if nknown[kn["what"]] == 1:
-                res.known.append("%s [%s; first hit of this class: %s]" % (kn["what"], stream, w[:900]))
+                res.known.append((kn["what"], w))
             continue
         if cls == "abort":
             st["aborts"] += 1
@@ -223,6 +335,7 @@ def run_domain(prop, tier, seed, dom, exe, known, n=None, lines=None):
                     "replay: python3 checks/fwddoms.py %s --dom %s --replay '<input>'\n"
                     % (stream, i, name, dom["what"], l, a, prop, name))
             res.violations.append(("%s-%s-%d" % (stream, cls, i), text, True))
+    res.known = [(what, w, nknown[what]) for what, w in res.known]
     st["configurations"] = opt_count
     if prop == "C02":
         st["verdict_letters"] = letters
@@ -263,15 +376,20 @@ def streams(rep, tier, seed, prop=None, only=None, n=None):
                 r = DomResult()
                 r.violations.append(("%s-error" % stream_name(name), "forward analysis over %s could not be run: %r" % (name, e), False))
                 results[name] = r
+    known_all = {}
     for d in good:
         r = results[d["name"]]
         rep.cov["streams"][stream_name(d["name"])] = r.st
         rep.cov["evaluations"] += r.st["cases"]
         rep.cov["distinct_nontrivial"] = rep.cov.get("distinct_nontrivial", 0) + r.st["distinct_nontrivial"]
-        for kf in r.known:
-            rep.known_finding(kf)
+        for what, w, cnt in r.known:
+            kf = known_all.setdefault(what, {"streams": [], "first": "%s: %s" % (stream_name(d["name"]), w)})
+            kf["streams"].append("%s (%d)" % (stream_name(d["name"]), cnt))
         for tag, text, wit in r.violations:
             rep.violation(tag, text, wit)
+    # one report per known finding, with the streams (domains) it was met in
+    for what, kf in known_all.items():
+        rep.known_finding("%s [hits: %s; first hit: %s]" % (what, ", ".join(kf["streams"]), kf["first"][:1200]))
     info["wall_s"] = round(time.time() - t0, 1)
 
 
@@ -337,6 +455,31 @@ def shrink(line, still_fails, budget=400):
                 del b2[bi][si]
                 if attempt(head, b2, edges, extra):
                     blocks = b2; changed = True
+        # contract an empty block (predecessors get its successors), renumbering the blocks above it
+        bi = len(blocks) - 1
+        while bi >= 1 and calls[0] < budget:
+            ht = head.split()
+            m = re.search(r"(?:^| )entry=(\d+)", head)
+            ent = int(m.group(1)) if m else 0
+            if blocks[bi] or int(ht[3]) == bi or ent == bi or any(x.split()[:2] == ["A", str(bi)] for x in extra):
+                bi -= 1; continue
+            preds = [a for a, b in edges if b == bi and a != bi]; succs = [b for a, b in edges if a == bi and b != bi]
+            e2 = []
+            for (a, b) in edges:
+                if a == bi or b == bi:
+                    if b == bi and a != bi:
+                        for s2 in succs:
+                            if (a, s2) not in e2: e2.append((a, s2))
+                    continue
+                if (a, b) not in e2: e2.append((a, b))
+            rn = lambda v: v - 1 if v > bi else v
+            e2 = [(rn(a), rn(b)) for a, b in e2]
+            h2 = [ht[0], str(len(blocks) - 1), ht[2], str(rn(int(ht[3])))] + [("entry=%d" % rn(ent)) if t.startswith("entry=") else t for t in ht[4:]]
+            x2 = [(" ".join(["A", str(rn(int(x.split()[1])))] + x.split()[2:]) if x.startswith("A ") else x) for x in extra]
+            b2 = blocks[:bi] + blocks[bi + 1:]
+            if attempt(" ".join(h2), b2, e2, x2):
+                head, blocks, edges, extra = " ".join(h2), b2, e2, x2; changed = True
+            bi -= 1
         # drop the last block when nothing refers to it
         while len(blocks) > 1:
             last = len(blocks) - 1
